@@ -204,7 +204,7 @@ def plan(tier, seed):
     if tier == "thorough":
         items = [it for it in items if it[0] not in ("d3", "wrapwrap")]
     meta["exhaustive"] = True
-    mod = 8 if tier == "quick" else 2
+    mod = 8 if tier == "quick" else 8
     first = [("family", i, i + 1, tier) for i in range(nf) if i % mod == seed % mod] + [("extra", i, i + 1) for i in range(nd)]
     meta["documents_again_one_per_pristine_process"] = len(first)
     return {"items": items, "pristine_items": first, "meta": meta}
